@@ -27,7 +27,8 @@ theorem insert_refines {s : LL} {l : Spec} (inv : Inv s l) (node : Option Ref)
     (hnode : ∀ n, node = some n → n ∈ ids l) (v : Val) (hsmall : l.length + 1 < 2 ^ 64) :
     ∃ s', LL.insert s node v = .ok (s', .node s.mem.cells.length) ∧
       Ref.node s.mem.cells.length ∉ ids l ∧
-      Inv s' (specInsert l node (.node s.mem.cells.length) v) := by
+      Inv s' (specInsert l node (.node s.mem.cells.length) v) ∧
+      s'.mem.cells.length = s.mem.cells.length + 1 := by
   obtain ⟨m2, a1, h2, c2, lv2, len2, v2, n2, p2⟩ := inv.mem.alloc_setVal v
   have hfresh := inv.mem.fresh
   have hnotin : Ref.node s.mem.cells.length ∉ ids l := by
@@ -43,7 +44,8 @@ theorem insert_refines {s : LL} {l : Spec} (inv : Inv s l) (node : Option Ref)
       obtain ⟨m6, h6, c6, l6⟩ := linkBefore_spec c2 hfresh lv2
       have hminv := MInv.linked (L1 := []) (L2 := l) (A := []) (p := Ref.head) (v := v)
         (by simpa using inv.mem) (by simpa [hpath] using hfresh) (by simp [ids]) hN v2 c6 l6
-      refine ⟨{ mem := m6, pool := s.pool.map Pool.alloc, size := s.size + 1 }, ?_, hnotin, ?_⟩
+      refine ⟨{ mem := m6, pool := s.pool.map Pool.alloc, size := s.size + 1 }, ?_, hnotin, ?_,
+        by simp only [l6.len, len2]⟩
       · simp [LL.insert, allocateNode, a1, h2, head_next, hhn, deref, h6, bind, Except.bind, pure,
           Except.pure]
       · exact ⟨by simpa [specInsert] using hminv, by simp [specInsert, inv.size], by
@@ -56,7 +58,8 @@ theorem insert_refines {s : LL} {l : Spec} (inv : Inv s l) (node : Option Ref)
     rw [hpath] at c2
     obtain ⟨m6, h6, c6, l6⟩ := linkBefore_spec c2 (by rw [← hpath]; exact hfresh) lv2
     have hminv := MInv.linked (v := v) inv.mem hfresh hP hN v2 c6 l6
-    refine ⟨{ mem := m6, pool := s.pool.map Pool.alloc, size := s.size + 1 }, ?_, hnotin, ?_⟩
+    refine ⟨{ mem := m6, pool := s.pool.map Pool.alloc, size := s.size + 1 }, ?_, hnotin, ?_,
+        by simp only [l6.len, len2]⟩
     · simp [LL.insert, allocateNode, a1, h2, h6, bind, Except.bind, pure, Except.pure]
     · simp only [specInsert, insBefore_split L1 L2 hn1]
       exact ⟨hminv, by simp [inv.size]; omega, by simp at hsmall ⊢; omega⟩
@@ -65,7 +68,8 @@ theorem append_refines {s : LL} {l : Spec} (inv : Inv s l) (node : Option Ref)
     (hnode : ∀ n, node = some n → n ∈ ids l) (v : Val) (hsmall : l.length + 1 < 2 ^ 64) :
     ∃ s', LL.append s node v = .ok (s', .node s.mem.cells.length) ∧
       Ref.node s.mem.cells.length ∉ ids l ∧
-      Inv s' (specAppend l node (.node s.mem.cells.length) v) := by
+      Inv s' (specAppend l node (.node s.mem.cells.length) v) ∧
+      s'.mem.cells.length = s.mem.cells.length + 1 := by
   obtain ⟨m2, a1, h2, c2, lv2, len2, v2, n2, p2⟩ := inv.mem.alloc_setVal v
   have hfresh := inv.mem.fresh
   have hnotin : Ref.node s.mem.cells.length ∉ ids l := by
@@ -81,7 +85,8 @@ theorem append_refines {s : LL} {l : Spec} (inv : Inv s l) (node : Option Ref)
     obtain ⟨m6, h6, c6, l6⟩ := linkAfter_spec c2 (by rw [← hpath]; exact hfresh) lv2
     have hminv := MInv.linked (L1 := l) (L2 := []) (v := v) (by simpa using inv.mem)
       (by simpa using hfresh) hP hN v2 c6 l6
-    refine ⟨{ mem := m6, pool := s.pool.map Pool.alloc, size := s.size + 1 }, ?_, hnotin, ?_⟩
+    refine ⟨{ mem := m6, pool := s.pool.map Pool.alloc, size := s.size + 1 }, ?_, hnotin, ?_,
+        by simp only [l6.len, len2]⟩
     · simp [LL.append, allocateNode, a1, h2, tail_prev, htp, deref, h6, bind, Except.bind, pure,
         Except.pure]
     · exact ⟨by simpa [specAppend] using hminv, by simp [specAppend, inv.size], by
@@ -100,7 +105,8 @@ theorem append_refines {s : LL} {l : Spec} (inv : Inv s l) (node : Option Ref)
     obtain ⟨m6, h6, c6, l6⟩ := linkAfter_spec c2 (by rw [← hpath]; exact hfresh) lv2
     have hminv := MInv.linked (L1 := L1 ++ [(p, v0)]) (L2 := L2) (v := v)
       (by rw [hl]; exact inv.mem) (by rw [hl]; exact hfresh) hP hN v2 c6 l6
-    refine ⟨{ mem := m6, pool := s.pool.map Pool.alloc, size := s.size + 1 }, ?_, hnotin, ?_⟩
+    refine ⟨{ mem := m6, pool := s.pool.map Pool.alloc, size := s.size + 1 }, ?_, hnotin, ?_,
+        by simp only [l6.len, len2]⟩
     · simp [LL.append, allocateNode, a1, h2, h6, bind, Except.bind, pure, Except.pure]
     · simp only [specAppend, insAfter_split L1 L2 hn1]
       refine ⟨by simpa using hminv, by simp [inv.size]; omega, by simp at hsmall ⊢; omega⟩
@@ -127,14 +133,15 @@ theorem next_refines {s : LL} {l : Spec} (inv : Inv s l) {n : Ref} (hn : n ∈ i
 
 theorem remove_refines {s : LL} {l : Spec} (inv : Inv s l) {n : Ref} (hn : n ∈ ids l) (fr : Bool) :
     ∃ s', LL.remove s n fr = .ok (s', (specRemove l n fr).2.1, (specRemove l n fr).2.2) ∧
-      Inv s' (specRemove l n fr).1 := by
+      Inv s' (specRemove l n fr).1 ∧ s'.mem.cells.length = s.mem.cells.length := by
   have hnext := next_refines inv hn
   obtain ⟨L1, v0, L2, rfl, hn1, hn2⟩ := decompose hn inv.mem.ids_nodup
   obtain ⟨i, rfl⟩ := inv.mem.is_node hn
   have hval : valOf s.mem (.node i) = some v0 := inv.mem.vals _ _ (by simp)
   obtain ⟨s1, hfd, hpool, hsz, hlen, hn1', hp1', hv1', hl1'⟩ := freeData_spec hval fr
-  obtain ⟨m4, m5, h4, h5, minv5, _⟩ := inv.mem.remove_node hn1' hp1' hv1' hl1' hlen
-  refine ⟨{ mem := m5, pool := s1.pool.map Pool.free, size := (s1.size + 2 ^ 64 - 1) % 2 ^ 64 }, ?_, ?_⟩
+  obtain ⟨m4, m5, h4, h5, minv5, hlen5⟩ := inv.mem.remove_node hn1' hp1' hv1' hl1' hlen
+  refine ⟨{ mem := m5, pool := s1.pool.map Pool.free, size := (s1.size + 2 ^ 64 - 1) % 2 ^ 64 }, ?_, ?_,
+    hlen5⟩
   · simp only [LL.remove, hnext, hfd, freeNode, h4, h5, bind, Except.bind, pure, Except.pure,
       specRemove, specNext, dataOf_split L1 L2 hn1]
   · simp only [specRemove, filter_split L1 L2 hn1 hn2]
@@ -218,5 +225,169 @@ theorem toList_refines {s : LL} {l : Spec} (inv : Inv s l) :
   constructor
   · simp [LL.toList, hf, deref, hwf, inv.mem.readCells, bind, Except.bind]
   · simp [LL.toListRev, hb, deref, hwb, bind, Except.bind]
+
+/-- the loop of `clear`: every element is unlinked and freed, front to back; the
+callback sees exactly the non-NULL data, in order -/
+theorem clearLoop_spec (fr : Bool) : ∀ (l : Spec) (s : LL) (fuel : Nat) (node : Ref) (freed : List Val),
+    MInv s.mem l → (ids l ++ [Ref.tail]).head? = some node → l.length < fuel →
+    ∃ s', LL.clearLoop fr fuel s node freed =
+        .ok (s', freed ++ (if fr then (l.map (·.2)).filter (· ≠ 0) else [])) ∧
+      MInv s'.mem [] ∧ s'.mem.cells.length = s.mem.cells.length := by
+  intro l
+  induction l with
+  | nil =>
+    intro s fuel node freed inv hh hf
+    have : node = Ref.tail := by simpa [ids] using hh.symm
+    subst this
+    cases fuel with
+    | zero => omega
+    | succ f =>
+      refine ⟨s, ?_, inv, rfl⟩
+      cases fr <;> simp [LL.clearLoop, pure, Except.pure]
+  | cons a l ih =>
+    intro s fuel node freed inv hh hf
+    obtain ⟨n, v0⟩ := a
+    have hn : node = n := by simpa [ids] using hh.symm
+    subst hn
+    obtain ⟨i, rfl⟩ := inv.is_node (n := node) (by simp [ids])
+    cases fuel with
+    | zero => omega
+    | succ f =>
+      -- the successor read before the node is freed
+      cases hN : ids l ++ [Ref.tail] with
+      | nil => simp at hN
+      | cons nx B =>
+        have c : Chain (nxt s.mem) (prv s.mem) ([Ref.head] ++ Ref.node i :: nx :: B) := by
+          have := inv.chain
+          simp only [path, ids, List.map_cons, List.cons_append] at this
+          rw [show List.map (fun x => x.1) l = ids l from rfl, hN] at this
+          simpa using this
+        obtain ⟨hnn, _, _⟩ := chain_adj c
+        obtain ⟨cn, hcn, hcnn, _, _⟩ := get_of_live (live_of_nxt hnn)
+        have hval : valOf s.mem (.node i) = some v0 := inv.vals _ _ (by simp)
+        obtain ⟨s1, hfd, hpool, hsz, hlen, hn1', hp1', hv1', hl1'⟩ := freeData_spec hval fr
+        obtain ⟨m4, m5, h4, h5, minv5, hlen5⟩ :=
+          MInv.remove_node (L1 := []) (L2 := l) (by simpa using inv) hn1' hp1' hv1' hl1' hlen
+        have hfn : ∃ s2, freeNode s1 (.node i) = .ok s2 ∧ s2.mem = m5 := by
+          refine ⟨{ mem := m5, pool := s1.pool.map Pool.free, size := (s1.size + 2 ^ 64 - 1) % 2 ^ 64 }, ?_, rfl⟩
+          simp only [freeNode, h4, h5, bind, Except.bind, pure, Except.pure]
+        obtain ⟨s2, hfn, hs2⟩ := hfn
+        obtain ⟨s', hs', inv', hlen'⟩ := ih s2 f nx (freed ++ (if fr ∧ v0 ≠ 0 then [v0] else []))
+          (by rw [hs2]; simpa using minv5) (by rw [hN]; rfl) (by simp at hf; omega)
+        refine ⟨s', ?_, inv', by rw [hlen', hs2, hlen5]⟩
+        have hne : Ref.node i ≠ Ref.tail := by intro h; cases h
+        have hnx : cn.next = some nx := by rw [hcnn, hnn]
+        have step : LL.clearLoop fr (f + 1) s (.node i) freed = LL.clearLoop fr f s2
+            nx (freed ++ (if fr ∧ v0 ≠ 0 then [v0] else [])) := by
+          simp only [LL.clearLoop, hne, if_false, hcn, hnx, deref, hfd, hfn, bind, Except.bind]
+        have hlist : freed ++ (if fr ∧ v0 ≠ 0 then [v0] else []) ++
+              (if fr then (l.map (·.2)).filter (· ≠ 0) else []) =
+            freed ++ (if fr then (((Ref.node i, v0) :: l).map (·.2)).filter (· ≠ 0) else []) := by
+          cases fr with
+          | false => simp
+          | true =>
+            by_cases h0 : v0 = 0 <;> simp [h0]
+        rw [step, hs', hlist]
+
+theorem clear_refines {s : LL} {l : Spec} (inv : Inv s l) (fr : Bool) :
+    ∃ s', LL.clear s fr = .ok (s', (specClear l fr).2) ∧ Inv s' (specClear l fr).1 ∧
+      s'.mem.cells.length = s.mem.cells.length := by
+  obtain ⟨⟨first, hf, _⟩, _⟩ := inv.mem.walks
+  have hh : (ids l ++ [Ref.tail]).head? = some first := by
+    have c := inv.mem.chain
+    cases hN : ids l ++ [Ref.tail] with
+    | nil => simp at hN
+    | cons n B =>
+      have c' : Chain (nxt s.mem) (prv s.mem) ([] ++ Ref.head :: n :: B) := by
+        simpa [path, hN] using c
+      obtain ⟨h, _, _⟩ := chain_adj c'
+      rw [head_next, h] at hf
+      injection hf with hf
+      simp [hf]
+  obtain ⟨s', hs', inv', hlen'⟩ := clearLoop_spec fr l s (s.mem.cells.length + 1) first []
+    inv.mem hh (by have := inv.mem.length_le; omega)
+  refine ⟨{ s' with size := 0 }, ?_, ⟨inv', rfl, by simp [specClear]⟩, hlen'⟩
+  simp [LL.clear, hf, deref, hs', specClear, bind, Except.bind, pure, Except.pure]
+
+theorem findLoop_spec (m : DMem Val) (data : Val) : ∀ (L pre : Spec) (fuel : Nat) (node : Ref),
+    MInv m (pre ++ L) → (ids L ++ [Ref.tail]).head? = some node → L.length < fuel →
+    findLoop m data fuel node = .ok ((L.find? (·.2 = data)).map (·.1)) := by
+  intro L
+  induction L with
+  | nil =>
+    intro pre fuel node inv hh hf
+    have : node = Ref.tail := by simpa [ids] using hh.symm
+    subst this
+    cases fuel with
+    | zero => omega
+    | succ f => simp [findLoop, pure, Except.pure]
+  | cons a L ih =>
+    intro pre fuel node inv hh hf
+    obtain ⟨n, v0⟩ := a
+    have hn : node = n := by simpa [ids] using hh.symm
+    subst hn
+    obtain ⟨i, rfl⟩ := inv.is_node (n := node) (by simp [ids])
+    cases fuel with
+    | zero => omega
+    | succ f =>
+      cases hN : ids L ++ [Ref.tail] with
+      | nil => simp at hN
+      | cons nx B =>
+        have c : Chain (nxt m) (prv m) ((Ref.head :: ids pre) ++ Ref.node i :: nx :: B) := by
+          have := inv.chain
+          simp only [path, ids, List.map_append, List.map_cons, List.append_assoc,
+            List.cons_append] at this
+          rw [show List.map (fun x => x.1) L = ids L from rfl, hN] at this
+          simpa [ids] using this
+        obtain ⟨hnn, _, _⟩ := chain_adj c
+        obtain ⟨cn, hcn, hcnn, _, hcv⟩ := get_of_live (live_of_nxt hnn)
+        have hval : valOf m (.node i) = some v0 := inv.vals _ _ (by simp)
+        have hv : cn.val = v0 := by rw [hval] at hcv; injection hcv
+        have hne : Ref.node i ≠ Ref.tail := by intro h; cases h
+        by_cases hd : v0 = data
+        · simp [findLoop, hcn, hv, hd, bind, Except.bind, pure, Except.pure]
+        · have hnx : cn.next = some nx := by rw [hcnn, hnn]
+          have := ih (pre ++ [(Ref.node i, v0)]) f nx (by simpa using inv) (by rw [hN]; rfl)
+            (by simp at hf; omega)
+          simp [findLoop, hcn, hv, hd, hnx, deref, this, bind, Except.bind]
+
+theorem dropWhile_split {n : Ref} {v0 : Val} (L1 L2 : Spec) (h : n ∉ ids L1) :
+    (L1 ++ (n, v0) :: L2).dropWhile (fun a => a.1 ≠ n) = (n, v0) :: L2 := by
+  induction L1 with
+  | nil => simp [List.dropWhile]
+  | cons a L1 ih =>
+    simp only [ids, List.map_cons, List.mem_cons, not_or] at h
+    have ha : a.1 ≠ n := fun e => h.1 e.symm
+    simp only [List.cons_append, List.dropWhile_cons, ha, ne_eq, not_false_eq_true, decide_true,
+      if_true]
+    exact ih (by simpa [ids] using h.2)
+
+theorem find_refines {s : LL} {l : Spec} (inv : Inv s l) (node : Option Ref)
+    (hnode : ∀ n, node = some n → n ∈ ids l) (v : Val) :
+    LL.find s node v = .ok (specFind l node v) := by
+  have hlen := inv.mem.length_le
+  cases node with
+  | none =>
+    obtain ⟨⟨first, hf, _⟩, _⟩ := inv.mem.walks
+    have hh : (ids l ++ [Ref.tail]).head? = some first := by
+      have c := inv.mem.chain
+      cases hN : ids l ++ [Ref.tail] with
+      | nil => simp at hN
+      | cons n B =>
+        have c' : Chain (nxt s.mem) (prv s.mem) ([] ++ Ref.head :: n :: B) := by
+          simpa [path, hN] using c
+        obtain ⟨h, _, _⟩ := chain_adj c'
+        rw [head_next, h] at hf
+        injection hf with hf
+        simp [hf]
+    have := findLoop_spec s.mem v l [] (s.mem.cells.length + 1) first (by simpa using inv.mem) hh
+      (by omega)
+    simp [LL.find, hf, deref, this, specFind, bind, Except.bind]
+  | some n =>
+    obtain ⟨L1, v0, L2, rfl, hn1, hn2⟩ := decompose (hnode n rfl) inv.mem.ids_nodup
+    have := findLoop_spec s.mem v ((n, v0) :: L2) L1 (s.mem.cells.length + 1) n inv.mem
+      (by simp [ids]) (by simp at hlen ⊢; omega)
+    have hd := dropWhile_split (v0 := v0) L1 L2 hn1
+    simp only [LL.find, specFind, hd, this, bind, Except.bind, pure, Except.pure]
 
 end MgProof.C11.LL
